@@ -102,3 +102,14 @@ From FB Require Import AllocProofs AllocHistory.
 Example allocations_of_a_small_history :
   list_sum (run_allocs P0 init_state ops_pending) = 5 /\ run_peak P0 init_state ops_pending = 3.
 Proof. vm_compute. split; reflexivity. Qed.
+
+(** LedgerProofs: three children pushed, one completes and is dropped by its poll, the other two
+    are dropped with the collection: taken = [1;2;3], dropped = [1;3;2], nothing held *)
+From FB Require Import LedgerProofs.
+Definition ops_ledger : list op := ops_item ++ [OPoll 0 no_inj; ODropColl; OCleanup].
+Example ledger_of_a_small_history :
+  held_ids (st_coll (reach P0 ops_ledger)) = []
+  /\ dropped_in P0 init_state ops_ledger = [1; 3; 2]%N
+  /\ taken_in P0 init_state ops_ledger = [1; 2; 3]%N
+  /\ pulled_in P0 init_state ops_ledger = [].
+Proof. vm_compute. repeat split; reflexivity. Qed.
